@@ -64,6 +64,46 @@ ExtractPrediction(e) ==
              IN  (IF sa # expSrc THEN {<<"source-shape-not-as-predicted", expSrc, sa>>} ELSE {})
                  \cup (IF nv # expNew THEN {<<"new-note-shape-not-as-predicted", expNew, nv>>} ELSE {})
 
+(***************************************************************************)
+(* Extract sub-sections, predicted: the section on the requested line      *)
+(* keeps its own blocks, followed by one reference per direct sub-section  *)
+(* (in their order); each sub-section, promoted to level 1, is the shape   *)
+(* of exactly one new note.                                                *)
+(***************************************************************************)
+RECURSIVE SubStarts(_, _, _, _)
+\* positions of the direct sub-headings (level of the first heading after i) in i+1..stop-1
+SubStarts(sh, lo, hi, lvl) ==
+    IF lo > hi THEN <<>>
+    ELSE IF sh[lo].k = "H" /\ sh[lo].d = 0 /\ sh[lo].l = lvl THEN <<lo>> \o SubStarts(sh, lo + 1, hi, lvl)
+    ELSE SubStarts(sh, lo + 1, hi, lvl)
+
+SubsectionsPrediction(e) ==
+    LET sb == SrcViewB(e).shape
+        sa == SrcViewA(e).shape
+        new == {v \in Range(After(e)) : v.key \in Created(e)}
+        idx == {i \in 1..Len(sb) : sb[i].k = "H" /\ sb[i].d = 0 /\ sb[i].first = e.target_first}
+    IN  IF Kind(e) # "refactor.extract.subsections" \/ Cardinality(idx) # 1 THEN {}
+        ELSE LET i == CHOOSE x \in idx : TRUE
+                 lvl == sb[i].l
+                 ends == {j \in (i + 1)..Len(sb) : sb[j].k = "H" /\ sb[j].d = 0 /\ sb[j].l <= lvl}
+                 stop == IF ends = {} THEN Len(sb) + 1 ELSE MinOf(ends)
+                 heads == {j \in (i + 1)..(stop - 1) : sb[j].k = "H" /\ sb[j].d = 0}
+             IN  IF heads = {} THEN {}
+                 ELSE LET first == MinOf(heads)
+                          sub == sb[first].l
+                          starts == SubStarts(sb, first, stop - 1, sub)
+                          EndOf(n) == IF n < Len(starts) THEN starts[n + 1] - 1 ELSE stop - 1
+                          Promoted(n) == [j \in 1..(EndOf(n) - starts[n] + 1) |->
+                                            LET x == sb[starts[n] + j - 1] IN
+                                            IF x.k = "H" /\ x.d = 0 THEN [x EXCEPT !.l = @ - (sub - 1)] ELSE x]
+                          expSrc == SubSeq(sb, 1, first - 1) \o [n \in 1..Len(starts) |-> RefEntry] \o SubSeq(sb, stop, Len(sb))
+                      IN  \* (a deeper first sub-heading followed by shallower ones is outside this prediction)
+                          IF \E j \in heads : sb[j].l < sub THEN {}
+                          ELSE (IF sa # expSrc THEN {<<"source-shape-not-as-predicted", expSrc, sa>>} ELSE {})
+                               \cup (IF Cardinality(new) # Len(starts) THEN {<<"one-note-per-sub-section", Len(starts), Cardinality(new)>>} ELSE {})
+                               \cup {<<"sub-section-is-no-new-note", Promoted(n)>> :
+                                        n \in {m \in 1..Len(starts) : ~\E v \in new : v.shape = Promoted(m)}}
+
 ExtractReasons(e) ==
     LET sb == SrcViewB(e)
         sa == SrcViewA(e)
@@ -87,6 +127,7 @@ ExtractReasons(e) ==
         \cup (IF Cardinality(new) = 1 /\ ~IsRemovalOf(sb.words, sa.words, (CHOOSE v \in new : TRUE).words)
               THEN {<<"rest-of-source-changed">>} ELSE {})
         \cup ExtractPrediction(e)
+        \cup SubsectionsPrediction(e)
 
 (***************************************************************************)
 (* Inline section, predicted: some reference of the host at depth 0 is     *)
